@@ -19,7 +19,7 @@ import (
 )
 
 const rule = "cases = (hostname-heavy trie-grown route set, request whose Host is derived from a registered hostname pattern and mutated: " +
-	"bytes/labels appended or prepended, truncated, port, trailing dot(s), junk, IP literals, empty; half of the cases after delete churn of related hostname routes); distinct by (route set, request); " +
+	"bytes/labels appended or prepended, truncated, port, trailing dot(s), junk, IP literals, empty; half of the cases after delete churn of related hostname routes; a third looked up through an open write transaction that added and deleted routes; Reverse and Iter.Reverse must agree with Lookup; the request list is walked in three orders); distinct by (route set, request); " +
 	"non-trivial when the route set has a hostname route for the request method and the Host is non-empty"
 
 func main() {
